@@ -140,11 +140,15 @@ class CallMixin:
                 qual = fv.data['qual']
                 if qual in self.contracts:
                     return self.call_contract(qual, None, args, kws, st, node, k)
+                if self.can_auto_inline(qual):
+                    return self.auto_inline(qual, None, args, kws, st, node, k)
                 raise Unsupported("call of %s: no contract and no rule (line %s)" % (qual, node.lineno))
             if kind == 'bound':
                 qual = fv.data['qual']
                 if qual in self.contracts:
                     return self.call_contract(qual, fv.data['recv'], args, kws, st, node, k)
+                if self.can_auto_inline(qual):
+                    return self.auto_inline(qual, fv.data['recv'], args, kws, st, node, k)
                 raise Unsupported("call of method %s: no contract and no rule (line %s)" % (qual, node.lineno))
             if kind == 'closure':
                 return self.inline_closure(fv, args, kws, st, node, k)
@@ -243,6 +247,32 @@ class CallMixin:
             s.fid = caller
             return k(s, v)
         return self.ev(lam.body, st, back)
+
+    # A helper of the repository that has neither a contract nor a rule (typically one that a refactoring has just
+    # extracted) is executed in place when that is plainly sound: a loop-free, non-recursive, non-generator def.  The
+    # verified text is still the real code; the ledger records the inlining.
+    def can_auto_inline(self, qual):
+        try:
+            fdef, _, _ = self.find_def(qual)
+        except ContractError:
+            return False
+        if qual in getattr(self, '_inlining', ()):
+            return False
+        for n in ast.walk(fdef):
+            if isinstance(n, (ast.For, ast.While, ast.AsyncFor, ast.Yield, ast.YieldFrom, ast.Await, ast.Global, ast.Nonlocal,
+                              ast.ListComp, ast.SetComp, ast.DictComp, ast.GeneratorExp, ast.Lambda)) \
+                    or (isinstance(n, (ast.FunctionDef, ast.ClassDef)) and n is not fdef):
+                return False
+        return not fdef.decorator_list and not fdef.args.vararg and not fdef.args.kwonlyargs
+
+    def auto_inline(self, qual, recv, args, kws, st, node, k):
+        stack = self.__dict__.setdefault('_inlining', [])
+        stack.append(qual)
+        self.note('rule', (node.lineno, 'call of %s' % qual, 'inlined (loop-free helper without contract: its real body is executed in place)'))
+        try:
+            return self.inline_def(qual, recv, args, kws, st, node, k)
+        finally:
+            stack.pop()
 
     def inline_def(self, qual, recv, args, kws, st, node, k):
         fdef, _, _ = self.find_def(qual)
